@@ -7,8 +7,8 @@
       _refuted theorems about rp_orig / rp_no_* to real code;
   (2) runs the registered check against that tree and reports whether it fired.
 
-usage: tools/c15_variants.py <base-commit-with-all-fixes-or-none> patches.py
-       (patches.py n REPO applies repair n to REPO; see notes/C15.md)"""
+usage: tools/c15_variants.py [<commit of /repo that has all seven repairs, default HEAD>]
+       (each variant = that tree with some repairs taken out by tools/c15_patches.py --reverse)"""
 import os
 import random
 import subprocess
@@ -17,23 +17,24 @@ import sys
 ROOT = os.path.dirname(os.path.dirname(os.path.abspath(__file__)))
 sys.path.insert(0, os.path.join(ROOT, "tools"))
 
-# repair number -> position of its flag in the variant string (bitidx shguard nooverwrite rbflag arm)
-FLAGPOS = {1: 0, 2: 1, 3: 3, 4: 2, 5: 4}
+# repair number -> position of its flag in the variant string
+# (bitidx shguard nooverwrite rbflag arm resp_rb resp_nowrite)
+FLAGPOS = {1: 0, 2: 1, 3: 3, 4: 2, 5: 4, 6: 5, 7: 6}
 
 
 def main():
-    base, patches = sys.argv[1], sys.argv[2]
+    base = sys.argv[1] if len(sys.argv) > 1 else "HEAD"
+    patches = os.path.join(ROOT, "tools", "c15_patches.py")
     results = []
-    for missing in [None, 1, 2, 3, 4, 5, "all"]:
+    for missing in [None, 1, 2, 3, 4, 5, 6, 7, "all"]:
         wt = "/var/tmp/verif.wt.C15v"
         subprocess.run(["git", "-C", "/repo", "worktree", "remove", "--force", wt], capture_output=True)
         subprocess.run(["git", "-C", "/repo", "worktree", "add", "--detach", wt, base], check=True, capture_output=True)
-        flags = ["n"] * 5
-        for n in (1, 2, 3, 4, 5):
+        flags = ["y"] * 7
+        for n in (7, 6, 5, 4, 3, 2, 1):
             if missing == "all" or n == missing:
-                continue
-            subprocess.run([sys.executable, patches, str(n), wt], check=True, capture_output=True)
-            flags[FLAGPOS[n]] = "y"
+                subprocess.run([sys.executable, patches, str(n), wt, "--reverse"], check=True, capture_output=True)
+                flags[FLAGPOS[n]] = "n"
         var = "".join(flags)
         env = dict(os.environ, VERIF_REPO=wt)
         code = r'''
@@ -48,10 +49,12 @@ lines = list(vlib.read_corpus("C15"))
 lines += list(G.rpu_exhaustive("32", G.UNIT_ALPHABET, 3))
 lines += list(G.rpd_exhaustive("32", 0, G.REQ_ALPHABET, 3)) + list(G.rpd_exhaustive("2", 1, G.REQ_ALPHABET, 3))
 lines += [G.rpu_random(r) for _ in range(3000)] + [G.rpd_random(r) for _ in range(3000)]
+lines += list(G.rpx_exhaustive("32", 0, G.RPX_ALPHABET, 3)) + list(G.rpx_exhaustive("32", 1, G.RPX_ALPHABET, 3))
+lines += [G.rpx_random(r) for _ in range(3000)]
 lines = [l.replace(" fixed ", " " + var + " ", 1) for l in lines if not l.startswith("sst")]
 om, _ = vlib.run_lines_robust(model, lines)
 oc, _ = vlib.run_lines_robust(drv, lines)
-bad = [(l, m, c) for l, m, c in zip(lines, om, oc) if m != c]
+bad = [(l, m, c) for l, m, c in zip(lines, om, oc) if m != c and "NOGEN" not in c]
 print("DIFF", var, len(lines), len(bad))
 for l, m, c in bad[:3]:
     print("  case", l); print("  model", m); print("  impl ", c)
